@@ -115,7 +115,7 @@ fn watch_end() {
 }
 
 /// number of hand-written histories run before the random ones
-pub const N_DIRECTED: usize = 8;
+pub const N_DIRECTED: usize = 10;
 
 pub fn penalty_num(loc: u32, class: u32) -> u32 {
     1000 + loc * 10 + class
@@ -327,7 +327,33 @@ impl<'a> Gen<'a> {
         let mut ops: Vec<HOp> = vec![HOp::Reg { user: 1 }, HOp::Reg { user: 2 }];
         // one tracker reaches 100 confirmations in the very block in which another one's re-broadcast is rejected: the
         // first is refunded, the second is not (three spacings, so that one of them makes the two coincide)
-        if which == 7 {
+        if which == 9 {
+            // a penalty confirmed and buried, three blocks disconnected, one replacement connected (the responder's index
+            // holds fewer blocks than its size), then the appointment arrives: the recorded confirmation height must be
+            // the penalty's height on the active chain
+            ops.push(conn(vec![1]));
+            ops.push(conn(vec![penalty_num(1, 0)]));
+            for _ in 0..3 {
+                ops.push(empty());
+            }
+            ops.push(HOp::Disc);
+            ops.push(HOp::Disc);
+            ops.push(empty());
+            ops.push(HOp::Add { user: 1, loc: 1, blob: enc(1, 260), tsd: 10, sig: SigKind::Valid });
+            ops.push(HOp::Get { user: 1, loc: 1, sig: SigKind::Valid });
+            ops.push(empty());
+            ops.push(empty());
+        } else if which == 8 {
+            // dispute and penalty mined together by somebody else, that block reorged out (the tower has no tracker in it),
+            // the replacement confirms the dispute only; then the appointment arrives: the penalty is not in the chain
+            // any more and must be handed to the node
+            ops.push(conn(vec![1, penalty_num(1, 0)]));
+            ops.push(HOp::Disc);
+            ops.push(conn(vec![1]));
+            ops.push(HOp::Add { user: 1, loc: 1, blob: enc(1, 260), tsd: 10, sig: SigKind::Valid });
+            ops.push(HOp::Get { user: 1, loc: 1, sig: SigKind::Valid });
+            ops.push(empty());
+        } else if which == 7 {
             // the node is ahead of the tower across a reorg: for the node the dispute is back in the mempool, the tower still
             // has it in its 6-block cache; a late appointment for that locator must still get its own penalty to the node
             ops.push(conn(vec![1]));
